@@ -46,6 +46,7 @@ INVARIANTS = ['GenAccepted', 'NoLibInRequiresAndLibs', 'NoDuplicateEntries', 'Me
 # signatures of the two defect classes that do not depend on the scenario
 SIG_SHARED_DEP = 'DependentsFirst:shared-dependency'
 SIG_NO_WARNING = 'DeprecationWarned:none'
+SIG_SIBLING = ('RequiresSet:whole-linked-sibling', 'RequiresPrivateSet:whole-linked-sibling')
 
 
 # ---------------------------------------------------------------------------
@@ -565,7 +566,7 @@ def judge(chk: Check, cases: T.List[T.Dict[str, T.Any]], fixed: T.Dict[str, T.An
             case = by_id[v['id']]
             for b in v['bad']:
                 head = f"{b['clause']}:{b['what']}" if b['what'] else b['clause']
-                if head in (SIG_SHARED_DEP, SIG_NO_WARNING):
+                if head in (SIG_SHARED_DEP, SIG_NO_WARNING) + SIG_SIBLING:
                     sig = head
                 else:
                     sig = f"{head}@call{b['call']}@{norm_case(case)}"
@@ -627,9 +628,9 @@ def main(chk: Check) -> None:
         raise MachineryError('pkg-config is not available')
     # ---- model checking + export of the scenario space
     if quick:
-        runs = [('G', 2, 2, 1, 1), ('D', 3, 1, 1, 1), ('S', 1, 1, 1, 7)]
+        runs = [('G', 2, 2, 1, 1), ('D', 2, 1, 1, 5), ('S', 1, 1, 1, 14)]
     else:
-        runs = [('G', 2, 3, 2, 1), ('G', 3, 2, 1, 6), ('D', 3, 2, 1, 8), ('S', 1, 1, 1, 1)]
+        runs = [('G', 2, 3, 2, 1), ('G', 3, 2, 1, 25), ('D', 3, 2, 1, 25), ('S', 1, 1, 1, 3)]
     scenarios: T.List[T.Dict[str, T.Any]] = []
     fixed: T.Dict[str, T.Any] = {}
     sizes = {}
@@ -642,12 +643,12 @@ def main(chk: Check) -> None:
     cases = [instantiate(s, f'a{j}', rnd) for j, s in enumerate(scenarios)]
     chk.extra['A_scenarios'] = len(cases)
     # ---- (A) replay through the real generator
-    execute(chk, cases, fixed, 60, 0.25 if quick else 0.2, 'A')
+    execute(chk, cases, fixed, 120, 0.2 if quick else 0.1, 'A')
     # ---- (B) random larger projects
-    nb = 1200 if quick else 20000
+    nb = 600 if quick else 8000
     rcases = [random_case(random.Random(f'B:{chk.seed}:{j}'), f'b{j}', fixed) for j in range(nb)]
     chk.extra['B_scenarios'] = nb
-    execute(chk, rcases, fixed, 25, 0.5 if quick else 0.3, 'B')
+    execute(chk, rcases, fixed, 40, 0.5 if quick else 0.25, 'B')
     chk.exhaustive = True
     chk.assumptions += [
         'not generated: both_libraries(), custom_target() libraries, dataonly, unescaped_variables, uninstalled_variables, '
